@@ -343,24 +343,20 @@ func (fr *Frame) sourceVar(name string, env *SpecEnv) (Val, bool) {
 				}
 			}
 			if env.header != nil {
-				// the value must be defined on every path to the loop header: its defining block dominates the
-				// header; among those, the most recently defined one is the variable's value at the header
-				dp, ix := -1, -1
+				// the assignment must lie on every path to the loop header (its block dominates the header) and so
+				// must the definition of the value; the latest such assignment gives the variable's value there
+				if b == env.header || !b.Dominates(env.header) {
+					continue
+				}
 				if vi, isIns := d.X.(ssa.Instruction); isIns {
 					db := vi.Block()
 					if db == nil || !db.Dominates(env.header) || db == env.header {
 						continue
 					}
-					dp = depth(db)
-					for k, in2 := range db.Instrs {
-						if in2 == vi {
-							ix = k
-						}
-					}
 				}
-				_ = idx
-				if dp > bestDepth || (dp == bestDepth && ix > bestIdx) {
-					bestDepth, bestIdx = dp, ix
+				dp := depth(b)
+				if dp > bestDepth || (dp == bestDepth && idx > bestIdx) {
+					bestDepth, bestIdx = dp, idx
 					found = d.X
 					n = 1
 				}
@@ -369,6 +365,32 @@ func (fr *Frame) sourceVar(name string, env *SpecEnv) (Val, bool) {
 			if d.X != found {
 				found = d.X
 				n++
+			}
+		}
+	}
+	if env.header != nil {
+		// a phi of an enclosing loop header that carries the variable's name binds it from that header on
+		for _, b := range fr.fn.Blocks {
+			if b == env.header || !b.Dominates(env.header) {
+				continue
+			}
+			for idx, ins := range b.Instrs {
+				phi, ok := ins.(*ssa.Phi)
+				if !ok {
+					break
+				}
+				if phi.Comment != name {
+					continue
+				}
+				if _, defined := fr.env[phi]; !defined {
+					continue
+				}
+				dp := depth(b)
+				if dp > bestDepth || (dp == bestDepth && idx > bestIdx) {
+					bestDepth, bestIdx = dp, idx
+					found = phi
+					n = 1
+				}
 			}
 		}
 	}
